@@ -163,11 +163,14 @@ def _scenario_shard(arg):
     if scen == RECONFIGURE and env_old == env_new:
         raise core.HarnessError('re-configuring does not change the saved configuration')
 
+    touched = [True]
+    pre_contents = proj.contents(pr.bld) if not initial else None
+
     def target():
-        """what the declared outputs must be: for source edits always the uninterrupted run's; for a
-        re-configure the project on disk is the sources plus the SAVED configuration, which a run
-        killed before its first write has not changed"""
-        if scen != RECONFIGURE:
+        """what the declared outputs must be: the uninterrupted run's; except that a re-configure
+        killed before it changed anything in the build directory has not changed the project
+        (sources plus saved configuration) at all"""
+        if scen != RECONFIGURE or touched[0]:
             return ref
         e = saved_env()
         return ref if e == env_new else old if e == env_old else None
@@ -184,6 +187,7 @@ def _scenario_shard(arg):
             raise core.HarnessError('crash point %d (%s %s) was not reached (status %s)'
                                     % (k, kind, path, st))
         stats['hit'] += 1
+        touched[0] = initial or proj.contents(pr.bld) != pre_contents
         proj.snapshot(pr.root, crashed)
         for seq in seqs:
             proj.restore(crashed, pr.root)
@@ -226,7 +230,7 @@ def _scenario_shard(arg):
                              'the saved configuration is neither the old nor the new one'))
                 continue
             diff = [n for n in ref if now[n] != ref[n]]
-            what = ['(saved configuration: %s)' % ('new' if tg is ref else 'old')] if scen == RECONFIGURE else []
+            what = ['(expected: the %s configuration)' % ('new' if tg is ref else 'old')] if scen == RECONFIGURE else []
             for n in diff:
                 if now[n] is None:
                     what.append('%s missing' % n)
